@@ -3,6 +3,7 @@ package main
 // Symbolic interpreter for go/ssa.
 
 import (
+	"os"
 	"fmt"
 	"go/constant"
 	"go/token"
@@ -149,6 +150,8 @@ func (r *Run) globalSlot(g *ssa.Global) *Slot {
 
 // ---------- calls ----------
 
+var traceCalls = os.Getenv("VERIF_TRACE_CALLS") != ""
+
 func (r *Run) fnName(fn *ssa.Function) string {
 	if o := fn.Origin(); o != nil {
 		return o.String()
@@ -186,6 +189,19 @@ func (r *Run) callFunc(caller *frame, pos token.Pos, fn *ssa.Function, args []Va
 	}
 	if fn.Blocks == nil {
 		r.unsupported("external function without body: " + name)
+	}
+	if traceCalls && r.concrete != nil && fn.Pkg == r.eng.pkg {
+		var as []string
+		for _, a := range args {
+			if t, ok := a.(*Term); ok && t.IsConst() {
+				as = append(as, fmt.Sprint(t.c))
+			} else if sv, ok := a.(SliceVal); ok && sv.len != nil && sv.len.IsConst() {
+				as = append(as, fmt.Sprintf("[]len=%d", sv.len.c))
+			} else {
+				as = append(as, fmt.Sprintf("%T", a))
+			}
+		}
+		fmt.Printf("    call g%d %s(%s)\n", r.curG().id, name, strings.Join(as, ","))
 	}
 	r.depth++
 	if r.depth > 200 {
